@@ -794,7 +794,15 @@ def compare_texts(ctx, CNF, stream, items):
     for t, _ in items:
         reqs.append(cmd('parse_dimacs', False, t))
         reqs.append(cmd('parse_dimacs', True, t))
-    reps = ctx.model.batch(reqs)
+    reps = []
+    k = 0
+    while k < len(reqs):          # one driver call per 2 MB of text
+        j, size = k, 0
+        while j < len(reqs) and (j == k or size + len(reqs[j][2]) <= 2000000):
+            size += len(reqs[j][2])
+            j += 1
+        reps.extend(ctx.model.batch(reqs[k:j]))
+        k = j
     for i, (t, meta) in enumerate(items):
         nontrivial = any(l.strip() and not l.strip().startswith('c') for l in t.split('\n'))
         for u in (False, True):
@@ -1387,7 +1395,7 @@ def build_thresholds(ctx, cnfgen, quick):
 def threshold_texts(rng, quick):
     """[(text, kind)] -- reader inputs at the threshold sizes"""
     out = []
-    for t in THRESHOLDS + [4096] + ([] if quick else [8192, 65537]):
+    for t in THRESHOLDS + [4096] + ([] if quick else [8192]):
         lits = [(-1) ** i * (1 + i % t) for i in range(t)]
         body = ' '.join(map(str, lits))
         out.append(('p cnf %d 1\n%s 0\n' % (t, body), 'one clause of t literals on one line'))
@@ -1520,6 +1528,8 @@ def huge_case(ctx, cnfgen, label, make, vias, header=True, names=False, pad_to=N
     CNF = cnfgen.CNF
     F = make()
     n, clauses = F.number_of_variables(), [list(c) for c in F]
+    if not header:
+        pad_to = None           # the padding is a header field
     if pad_to is not None:
         F.header['padding'] = ''
         s = io.StringIO()
@@ -1601,10 +1611,11 @@ def run_huge(ctx, cnfgen, quick):
         huge_case(ctx, cnfgen, 'one clause of 30000 literals', one_line(30000), ('name', 'stdout'))
         huge_case(ctx, cnfgen, 'description of 100000 characters, name of 70000 characters', long_fields(100000, 70000), ('fileobj', 'name'), names=True)
     else:
-        for target in (8 * MIB - 1, 8 * MIB, 8 * MIB + 1):
-            huge_case(ctx, cnfgen, '140000 clauses of 6 literals below 3000000', tall, VIAS, pad_to=target)
-        for target in (16 * MIB - 1, 16 * MIB, 16 * MIB + 1, 32 * MIB + 1):
-            F, n, clauses = huge_case(ctx, cnfgen, '67000 clauses of 29 literals below 3000000', wide, VIAS, pad_to=target)
+        for i, target in enumerate((8 * MIB - 1, 8 * MIB, 8 * MIB + 1)):
+            huge_case(ctx, cnfgen, '140000 clauses of 6 literals below 3000000', tall, VIAS if i == 2 else VIAS[i:i + 2], pad_to=target)
+        for i, target in enumerate((16 * MIB - 1, 16 * MIB, 16 * MIB + 1, 32 * MIB + 1)):
+            F, n, clauses = huge_case(ctx, cnfgen, '67000 clauses of 29 literals below 3000000', wide, VIAS if i == 2 else VIAS[i:i + 2], pad_to=target,
+                                      both=i == 2)
         big = dict(F=F, n=n, clauses=clauses)
         huge_case(ctx, cnfgen, '1300000 clauses of 3 literals', lambda: CNF(scrambled_clauses(seed + 2, 1300000, 3, 1, 900)), ('name', 'StringIO', 'stdout'))
         for k in (65536, 131072, 140000, 300000):
